@@ -9,6 +9,8 @@ import (
 	"strings"
 	"testing"
 
+	"github.com/wokdav/gopki/generator/db"
+	"github.com/wokdav/gopki/generator/db/filesystem"
 	"pgregory.net/rapid"
 
 	"verif/harness/core"
@@ -263,7 +265,7 @@ var c14Steps = []string{"edit-subject", "edit-keyalg", "all", "touch-outdated", 
 func TestC14(t *testing.T) {
 	r := core.Start(t, "C14")
 	defer r.Finish()
-	r.Rule = "three-tier hierarchy ca -> mid -> leaf; the target (any tier) pre-holds a PKCS#8 key written in gopki's shape, crypto/x509's shape or another legal shape from the harness builder (curve OID inside / outside / both, public key omitted, minimal or zero-padded scalar) for all ten curves and pooled RSA 1024/2048 (4096 in thorough), optionally with an old certificate beside it, with text before the first / after the last PEM block and with the hash line of an earlier run in front of, between or behind the blocks; RSA keys also in the flavour without NULL parameters (refusing that one is accepted, replacing it is not); paths with dots in directory names and file stems; the target optionally under a profile that contributes a validity and / or an extension; or (leaf only) a certificate request and no key. Then 1-4 regenerations by different reasons: subject edit, keyAlgorithm edit, generate-all, touched config with -o, certificate block removed, issuer edited. Oracle after every run: same key (curve,d)/(n,e,d) in the file, certificate SPKI == that key's public key recomputed by the harness, chain checks of C01 over all three tiers; request case: request block byte-identical, SPKI == request's, no PRIVATE KEY block. Non-trivial = >= 2 regenerations of a non-P-256 key, or a foreign encoding / surrounding text, or the request case; distinct by the full case."
+	r.Rule = "three-tier hierarchy ca -> mid -> leaf; the target (any tier) pre-holds a PKCS#8 key written in gopki's shape, crypto/x509's shape or another legal shape from the harness builder (curve OID inside / outside / both, public key omitted, minimal or zero-padded scalar) for all ten curves and pooled RSA 1024/2048 (4096 in thorough), optionally with an old certificate beside it, with text before the first / after the last PEM block and with the hash line of an earlier run in front of, between or behind the blocks; RSA keys also in the flavour without NULL parameters (refusing that one is accepted, replacing it is not); paths with dots in directory names and file stems; the target optionally under a profile that contributes a validity and / or an extension; or (leaf only) a certificate request and no key. Then 1-4 regenerations by different reasons: subject edit, keyAlgorithm edit, generate-all, touched config with -o, certificate block removed, issuer edited. Oracle after every run: same key (curve,d)/(n,e,d) in the file, certificate SPKI == that key's public key recomputed by the harness, chain checks of C01 over all three tiers; request case: request block byte-identical, SPKI == request's, no PRIVATE KEY block. Additionally one change list applied twice to the same database object (fresh three-tier chain, four key algorithms, default and generate-all): the second application keeps every key the first one wrote. Non-trivial = >= 2 regenerations of a non-P-256 key, or a foreign encoding / surrounding text, or the request case; distinct by the full case."
 	r.Assumptions = []string{"a key on a curve gopki does not support is outside the property and not generated"}
 	wrap := func(c c14Case) *core.Failure {
 		nt := len(c.Steps) >= 2 && c.KeyAlg != "P-256" || c.Profile != 0 || c.Lead != "" || c.Trail != "" || c.CSRDER != nil || c.HashPos > 1 || c.Layout != 0 || c.NoNull || c.SideKey
@@ -291,8 +293,21 @@ func TestC14(t *testing.T) {
 		return checkC14(c)
 	}
 	core.Register(r, "reuse", wrap)
+	twice := func(c c14Twice) *core.Failure {
+		r.Case(fmt.Sprintf("twice %+v", c), "session:one-plan-applied-twice")
+		return checkC14Twice(c)
+	}
+	core.Register(r, "twice", twice)
 	if r.Replays() {
 		return
+	}
+	for i, alg := range []string{"", "P-384", "brainpoolP256r1", "RSA-1024"} {
+		for _, strat := range []int{core.FlagDefault, core.FlagAll} {
+			if r.Mine(i*2 + strat%2) {
+				c := c14Twice{KeyAlg: alg, Flags: strat}
+				r.Report("twice", c, twice(c))
+			}
+		}
 	}
 	algs := append([]string{"RSA-1024", "RSA-2048"}, ecKeyAlgs...)
 	if !r.Quick() {
@@ -418,4 +433,85 @@ func foreignSPKI(kind int) []byte {
 	}
 	// X448: no parameters, 56 octets
 	return der.Seq(der.Seq(der.MustOID("1.3.101.111")), der.BitStr(bytes.Repeat([]byte{0xa5}, 56), 0))
+}
+
+// ---- one change list applied twice to the same database object (a caller retrying an update): the second application
+// finds the keys the first one made and keeps them
+
+type c14Twice struct {
+	KeyAlg string
+	Flags  int
+}
+
+func checkC14Twice(c c14Twice) *core.Failure {
+	sig := fittingSigAlgs(keyKind(map[string]string{"": "P-256"}[c.KeyAlg] + c.KeyAlg))[1]
+	w := World{Ents: []core.Entity{{File: "ca.yaml", Subject: []core.RDN{{Key: "CN", Value: "C14 twice CA"}}, KeyAlg: c.KeyAlg, SigAlg: sig},
+		{File: "mid.yaml", Subject: []core.RDN{{Key: "CN", Value: "C14 twice Mid"}}, Issuer: "ca", KeyAlg: c.KeyAlg, SigAlg: sig},
+		{File: "leaf.yaml", Subject: []core.RDN{{Key: "CN", Value: "C14 twice Leaf"}}, Issuer: "mid", KeyAlg: c.KeyAlg, SigAlg: sig}}}
+	d := w.Dir()
+	d.Tick(10)
+	dbase := filesystem.NewFilesystemDatabase(&core.MemFS{D: d})
+	if err := dbase.Open(); err != nil {
+		return core.Failf("C14/twice/setup", "open: %v", err)
+	}
+	defer dbase.Close()
+	keys := func() (map[string]*xref.Key, *core.Failure) {
+		out := map[string]*xref.Key{}
+		for i := range w.Ents {
+			dec, err := readEntity(d, &w.Ents[i])
+			if err != nil || dec.Cert == nil || dec.Key == nil {
+				return nil, core.Failf("C14/twice/no-artifact", "%s: %v", w.Ents[i].File, err)
+			}
+			if !bytes.Equal(dec.Cert.SPKIBits, dec.Key.PublicBits()) {
+				return nil, core.Failf("C14/certificate-not-for-key", "%s: the certificate does not carry the public key of the stored private key", w.Ents[i].File)
+			}
+			out[w.Ents[i].EffAlias()] = dec.Key
+		}
+		return out, nil
+	}
+	var pan any
+	var err error
+	var plan db.ChangeList
+	apply := func() {
+		defer func() { pan = recover() }()
+		if plan == nil {
+			if plan, err = db.PlanBulkUpdate(dbase, db.UpdateStrategy(c.Flags)); err != nil {
+				return
+			}
+		}
+		_, err = db.BulkUpdate(dbase, plan)
+	}
+	apply()
+	if pan != nil {
+		return core.Failf("C14/panic", "gopki panicked: %v", pan)
+	}
+	if err != nil {
+		return core.Failf("C14/twice/setup", "first application failed: %v", err)
+	}
+	first, f := keys()
+	if f != nil {
+		return f
+	}
+	d.Tick(5)
+	apply()
+	if pan != nil {
+		return core.Failf("C14/panic", "gopki panicked when the change list was applied again: %v", pan)
+	}
+	if err != nil {
+		return nil // whether a change list may be applied twice is nobody's promise; if it is refused nothing is claimed
+	}
+	second, f := keys()
+	if f != nil {
+		return f
+	}
+	for a, k := range first {
+		if !second[a].Same(k) {
+			return core.Failf("C14/key-replaced", "%s: applying the same change list a second time replaced the private key its file held (%s -> %s)", a, k.Describe(), second[a].Describe())
+		}
+	}
+	if f := chainCheck("C14", &w, d, true, false); f != nil {
+		f.Msg = "after the second application: " + f.Msg
+		return f
+	}
+	return nil
 }
